@@ -1,0 +1,106 @@
+// Verification-only stand-in (cfg winterfell_verif) for alloc::collections::{BTreeMap, BTreeSet}:
+// a sorted-Vec ordered map/set exposing the subset of the API used by this module. The std B-tree
+// does not get through CBMC's symbolic execution; the ordered-map contract is the same.
+use alloc::vec::Vec;
+
+#[derive(Debug, Clone, Default)]
+pub struct BTreeMap<K, V> {
+    items: Vec<(K, V)>,
+}
+
+impl<K: Ord + Copy, V> BTreeMap<K, V> {
+    pub fn new() -> Self {
+        Self { items: Vec::new() }
+    }
+    fn find(&self, k: &K) -> Result<usize, usize> {
+        let mut i = 0;
+        while i < self.items.len() {
+            if self.items[i].0 == *k {
+                return Ok(i);
+            }
+            if self.items[i].0 > *k {
+                return Err(i);
+            }
+            i += 1;
+        }
+        Err(i)
+    }
+    pub fn insert(&mut self, k: K, v: V) -> Option<V> {
+        match self.find(&k) {
+            Ok(i) => Some(core::mem::replace(&mut self.items[i].1, v)),
+            Err(i) => {
+                self.items.insert(i, (k, v));
+                None
+            },
+        }
+    }
+    pub fn get(&self, k: &K) -> Option<&V> {
+        match self.find(k) {
+            Ok(i) => Some(&self.items[i].1),
+            Err(_) => None,
+        }
+    }
+    pub fn remove(&mut self, k: &K) -> Option<V> {
+        match self.find(k) {
+            Ok(i) => Some(self.items.remove(i).1),
+            Err(_) => None,
+        }
+    }
+    pub fn contains_key(&self, k: &K) -> bool {
+        self.find(k).is_ok()
+    }
+    pub fn len(&self) -> usize {
+        self.items.len()
+    }
+    pub fn is_empty(&self) -> bool {
+        self.items.is_empty()
+    }
+    pub fn clear(&mut self) {
+        self.items.clear()
+    }
+    pub fn keys(&self) -> impl Iterator<Item = &K> {
+        self.items.iter().map(|e| &e.0)
+    }
+    pub fn values(&self) -> impl Iterator<Item = &V> {
+        self.items.iter().map(|e| &e.1)
+    }
+    pub fn iter(&self) -> impl Iterator<Item = (&K, &V)> {
+        self.items.iter().map(|e| (&e.0, &e.1))
+    }
+}
+
+#[derive(Debug, Clone, Default)]
+pub struct BTreeSet<K> {
+    items: Vec<K>,
+}
+
+impl<K: Ord + Copy> BTreeSet<K> {
+    pub fn new() -> Self {
+        Self { items: Vec::new() }
+    }
+    pub fn insert(&mut self, k: K) -> bool {
+        let mut i = 0;
+        while i < self.items.len() {
+            if self.items[i] == k {
+                return false;
+            }
+            if self.items[i] > k {
+                break;
+            }
+            i += 1;
+        }
+        self.items.insert(i, k);
+        true
+    }
+    pub fn len(&self) -> usize {
+        self.items.len()
+    }
+}
+
+impl<K> IntoIterator for BTreeSet<K> {
+    type Item = K;
+    type IntoIter = alloc::vec::IntoIter<K>;
+    fn into_iter(self) -> Self::IntoIter {
+        self.items.into_iter()
+    }
+}
